@@ -10,6 +10,8 @@ COMMON_ASSUMPTIONS = [
     "the WASM entry point itself cannot be executed here",
 ]
 
+NOT_APPLICABLE = {}
+
 PROPS = {
     "C01": dict(
         mc=[dict(module="MC_C01")], judge="Judge_C01", want=["js"],
